@@ -67,8 +67,15 @@ var Scale = 1
 // ResetHooks are run before every run (restore process-global state).
 var ResetHooks []func()
 
+// SeedHooks are run first of all, with the run's seed (seams whose random
+// draws must be a function of the seed: the runtime's map iteration order).
+var SeedHooks []func(seed uint64)
+
 // RunOne executes one simulated run.
 func RunOne(seed uint64, explicit []uint64, build Build, wantTrace, wantTape bool) Result {
+	for _, h := range SeedHooks {
+		h(seed)
+	}
 	for _, h := range ResetHooks {
 		h()
 	}
